@@ -220,6 +220,20 @@ func clip(b []byte) []byte {
 }
 
 func HistString(k Kind, h []int) string {
+	if len(h) > 64 {
+		// long histories are summarised: operation counts, then the last few operations verbatim
+		cnt := map[int]int{}
+		for _, op := range h {
+			cnt[op]++
+		}
+		s := fmt.Sprintf("%d calls (", len(h))
+		for op := 0; op < k.NumOps(); op++ {
+			if cnt[op] > 0 {
+				s += fmt.Sprintf("%s x%d ", k.OpName(op), cnt[op])
+			}
+		}
+		return s + "interleaved round-robin) ending in " + HistString(k, h[len(h)-3:])
+	}
 	var ps []string
 	for _, op := range h {
 		ps = append(ps, k.OpName(op))
